@@ -385,7 +385,13 @@ func interfaceValueAsSqlString(ctx *sql.Context, ti typeinfo.TypeInfo, value int
 			return fmt.Sprintf("%d", v), nil
 		}
 		return hexEncodeBytes([]byte(str)), nil
-	case querypb.Type_TIME, querypb.Type_YEAR, querypb.Type_DATETIME, querypb.Type_TIMESTAMP, querypb.Type_DATE:
+	case querypb.Type_YEAR:
+		// the string '0' is read as the year 2000, only the number 0 is the year 0000
+		if str == "0" {
+			return str, nil
+		}
+		return singleQuote + str + singleQuote, nil
+	case querypb.Type_TIME, querypb.Type_DATETIME, querypb.Type_TIMESTAMP, querypb.Type_DATE:
 		return singleQuote + str + singleQuote, nil
 	case querypb.Type_BINARY, querypb.Type_VARBINARY, querypb.Type_VECTOR:
 		value, err := sql.UnwrapAny(ctx, value)
